@@ -1,6 +1,9 @@
 #!/bin/bash
 # usage: try_mutant.sh PATCH CHECK [CHECK...]  - apply a seeded change to /repo, run the quick checks, undo it
 patch=$(realpath "$1"); shift
+# a change whose stored patch (made against the commit in its meta.json) conflicts with a later fix: commit may have a ported copy beside it
+alt="$(dirname "$patch")/patch-on-$(git -C /repo rev-parse --short HEAD).diff"
+[ -f "$alt" ] && patch="$alt"
 cd /repo || exit 2
 if ! git diff --quiet; then echo "repo dirty"; exit 2; fi
 if ! git apply "$patch" 2>/tmp/apply.err; then
